@@ -48,12 +48,17 @@ for d_, t_ in ((-80, "quick"), (-64, "thorough"), (-1, "quick"), (0, "quick"), (
         assumes=["crypto_sign_ed25519_detached replaced by a logging stub (its own obligation: c06.f.sign_detached)", "memmove over-approximated: first 64 bytes and one ghost byte exact"],
         bound="message length <= 80 bytes, relative offset %d" % d_))
 
-SC = ["general a: the 21-bit limb products a_i*b_j (symbolic multipliers) are NOT decided; these obligations fix a in {0,1} so that every product folds"]
-OBLIGATIONS += [
-    ob("c06.f.sc_muladd_01", "hf_muladd_01", ["sc25519_muladd"], "sc25519_muladd(a, b, c) for a in {0,1} and every b, c < 2^256: result < L and congruent to a*b + c modulo L (exact 600-bit integer arithmetic): carry chains and the folding of limbs 12..23 by 2^252 = -delta (mod L)",
-       src="harness/sc_reduce.c", props=("C06", "C07", "C12"), assumes=SC, replayable=False, cbmc=["--unwind", "70", "--unwinding-assertions"]),
-]
-for rb_, t_ in ((33, "quick"), (40, "thorough"), (64, "thorough")):
-    OBLIGATIONS.append(ob("c06.f.sc_reduce.bytes_%d" % rb_, "hf_reduce", ["sc25519_reduce"], "sc25519_reduce(s) for every s below 2^%d: result < L and congruent to s modulo L (exact integer arithmetic)" % (8 * rb_),
-       src="harness/sc_reduce.c", props=("C06", "C07", "C12"), defs=["-DRB=%d" % rb_], tier=t_, replayable=False, cbmc=["--unwind", "300", "--unwinding-assertions"], timeout=1800,
-       bound="none for s < 2^%d" % (8 * rb_)))
+SC = ["general a: the 21-bit limb products a_i*b_j (symbolic multipliers) and the folding of fully symbolic high limbs are NOT decided (SAT does not finish); these obligations fix a in {0,1} / s < 2^256 so that every product folds"]
+for av_ in (0, 1):
+    OBLIGATIONS.append(ob("c06.f.sc_muladd.a_%d" % av_, "hf_muladd_01", ["sc25519_muladd"], "sc25519_muladd(a, b, c) for a = %d and every b, c < 2^256: result < L and congruent to a*b + c modulo L (exact 600-bit integer arithmetic): limb loading, all carry chains, the folding of the high limbs, the final conditional passes" % av_,
+       src="harness/sc_reduce.c", props=("C06", "C07", "C12"), defs=["-DAVAL=%d" % av_, "-DAIDX=0"], assumes=SC, replayable=True, cbmc=["--unwind", "70", "--unwinding-assertions"], timeout=1500))
+OBLIGATIONS.append(ob("c06.f.sc_reduce.below_2_256", "hf_reduce", ["sc25519_reduce"], "sc25519_reduce(s) for every s below 2^256 (upper 32 bytes zero): result < L and congruent to s modulo L (exact integer arithmetic)",
+       src="harness/sc_reduce.c", props=("C06", "C07", "C12"), defs=["-DRB=32"], assumes=SC, replayable=True, cbmc=["--unwind", "300", "--unwinding-assertions"], timeout=1500, bound="none for s < 2^256; s >= 2^256 not decided"))
+
+for d_, t_ in ((-80, "quick"), (-17, "quick"), (-1, "quick"), (0, "quick"), (1, "quick"), (17, "quick"), (64, "quick"), (80, "quick"), (100, "thorough")):
+    OBLIGATIONS.append(ob("c13.b.sign_open.delta_%d" % d_, "hb_open_overlap", ["crypto_sign_ed25519_open"],
+        "crypto_sign_ed25519_open with the output overlapping the signed message at m - sm = %d bytes: the signature is verified over the untouched input, the original message is delivered" % d_,
+        props=("C13", "C06", "C12"), kind="B", tier=t_, defs=["-DVDELTA=(%d)" % d_], replayable=False,
+        gi_pre=["--replace-calls", "crypto_sign_ed25519_verify_detached:s_verify_detached"], cbmc=["--unwind", "90", "--unwinding-assertions", "--object-bits", "12"],
+        assumes=["crypto_sign_ed25519_verify_detached replaced by an arbitrary verdict (its check set: c06.f.verify_detached)", "memmove over-approximated: first 64 bytes and one ghost byte exact"],
+        bound="message length <= 80 bytes, relative offset %d" % d_))
